@@ -389,7 +389,11 @@ def forward(cfg, init, transfer, refine=None, start=None):
 def truth_of(expr, env):
     """-> (truth, elts)"""
     if isinstance(expr, ast.Constant):
-        return (False, 'NONE') if expr.value is None else (bool(expr.value), None)
+        if expr.value is None:
+            return (False, 'NONE')
+        if isinstance(expr.value, int) and not isinstance(expr.value, bool) and expr.value >= 0:
+            return (bool(expr.value), ('INT', min(expr.value, 2)))      # 2 stands for "two or more"
+        return (bool(expr.value), None)
     if isinstance(expr, ast.Name):
         return env.get(expr.id, (None, None))
     if isinstance(expr, ast.Attribute):
@@ -439,6 +443,19 @@ def truth_of(expr, env):
         return (True if lit else None, None)
     if isinstance(expr, ast.Compare) and len(expr.ops) == 1:
         l, r, op = expr.left, expr.comparators[0], expr.ops[0]
+        # small counters against integer literals
+        lv, rv = truth_of(l, env)[1], truth_of(r, env)[1]
+        if isinstance(lv, tuple) and lv and lv[0] == 'INT' and isinstance(r, ast.Constant) and isinstance(r.value, int) \
+                and not isinstance(r.value, bool):
+            k = r.value
+            cands = [lv[1]] if lv[1] < 2 else [2, 3, 1000]
+            fn = {ast.Eq: lambda a: a == k, ast.NotEq: lambda a: a != k, ast.Lt: lambda a: a < k, ast.LtE: lambda a: a <= k,
+                  ast.Gt: lambda a: a > k, ast.GtE: lambda a: a >= k}.get(type(op))
+            if fn is not None:
+                res = {fn(a) for a in cands}
+                if len(res) == 1:
+                    return (res.pop(), None)
+                return (None, None)
         # len(x) > 0, len(x) != 0, len(x) == 0, len(x) >= 1
         if isinstance(l, ast.Call) and isinstance(l.func, ast.Name) and l.func.id == 'len' and len(l.args) == 1 \
                 and isinstance(r, ast.Constant) and r.value in (0, 1):
@@ -456,6 +473,8 @@ def truth_of(expr, env):
         for a, b in ((l, r), (r, l)):
             if isinstance(b, ast.Constant) and (b.value == '' or b.value is None):
                 t, mark = truth_of(a, env)
+                if mark == 'OBJ' and b.value is None:
+                    return (isinstance(op, (ast.NotEq, ast.IsNot)), None)
                 if t is None:
                     return (None, None)
                 is_none = (mark == 'NONE')
@@ -514,6 +533,13 @@ def _bind(target, val, env):
         _bind(target.value, (None, None), env)
 
 
+def OBJECT_ITER(it):
+    """iterations that range over model objects: <x>.GetSectors() / .SectorList / .CountryList / .CurrencyZoneList"""
+    if isinstance(it, ast.Call) and isinstance(it.func, ast.Attribute) and it.func.attr in ('GetSectors',) and not it.args:
+        return True
+    return isinstance(it, ast.Attribute) and it.attr in ('SectorList', 'CountryList', 'CurrencyZoneList')
+
+
 def truth_transfer(node, env):
     """environment after the normal completion of a CFG node"""
     env = dict(env)
@@ -527,10 +553,14 @@ def truth_transfer(node, env):
             _bind(a.target, truth_of(a.value, env), env)
         elif isinstance(a, ast.AugAssign):
             if isinstance(a.target, ast.Name):
-                old = env.get(a.target.id, (None, None))[0]
+                oldv = env.get(a.target.id, (None, None))
+                old = oldv[0]
                 new = truth_of(a.value, env)[0]
                 if isinstance(a.op, ast.BitOr) and (old is True or new is True):
                     env[a.target.id] = (True, None)
+                elif isinstance(a.op, ast.Add) and isinstance(oldv[1], tuple) and oldv[1][0] == 'INT' and \
+                        isinstance(a.value, ast.Constant) and a.value.value == 1:
+                    env[a.target.id] = (True, ('INT', min(2, oldv[1][1] + 1)))
                 else:
                     env.pop(a.target.id, None)
         elif isinstance(a, (ast.Import, ast.ImportFrom, ast.Delete)):
@@ -538,9 +568,12 @@ def truth_transfer(node, env):
                 if isinstance(n, ast.Name):
                     env.pop(n.id, None)
     elif node.kind == 'for':
+        objs = isinstance(a.target, ast.Name) and OBJECT_ITER(a.iter)
         for n in ast.walk(a.target):
             if isinstance(n, ast.Name):
                 env.pop(n.id, None)
+                if objs:
+                    env[n.id] = (None, 'OBJ')       # an object of the model (never None); truthiness unknown
     elif node.kind == 'except':
         h = node.ast
         if getattr(h, 'name', None):
